@@ -84,6 +84,7 @@ impl CopyHandle {
             let bytes_to_copy = cmp::min(len - written, self.config.block_size);
             let bytes = copy_file_bytes(&self.infd, &self.outfd, bytes_to_copy)? as u64;
             written += bytes;
+            verif_point!("copy-bytes-before-copied-update");
             updates.send(StatusUpdate::Copied(bytes))?;
         }
 
@@ -170,6 +171,7 @@ impl CopyHandle {
 
 impl Drop for CopyHandle {
     fn drop(&mut self) {
+        verif_point!("copyhandle-drop");
         if self.finalised.load(Ordering::Relaxed) {
             return;
         }
@@ -259,6 +261,7 @@ pub fn tree_walker(
                 FileType::File => {
                     debug!("Send copy operation {:?} to {:?}", from, target);
                     stats.send(StatusUpdate::Size(meta.len()))?;
+                    verif_point!("walker-between-size-and-queue");
                     work_tx.send(Operation::Copy(from, target))?;
                 }
 
